@@ -17,6 +17,7 @@ Definition idn (s : string) : string := s.
 Inductive c01case :=
 | CSend (typ tag msize : N) (sent : dump) (wire : list N) (res : rawres)   (* real send, then real recv of those bytes *)
 | CRaw (msize : N) (wire : list N) (res : rawres)                          (* harness-made bytes into the real recv *)
+| CConn (msize : N) (wire : list N) (res : rawres)                         (* frame captured on a live connection *)
 | CBad.                                                                    (* observation that does not fit the schema *)
 
 Definition got_is (T : tables) (tag typ : N) (mv : mval) (res : rawres) : bool :=
@@ -52,7 +53,7 @@ Definition check_send (T : tables) (c : c01case) : bool :=
 (** the model's recv on arbitrary bytes does what the real recv did *)
 Definition check_raw_model (T : tables) (c : c01case) : bool :=
   match c with
-  | CRaw msize wire res =>
+  | CRaw msize wire res | CConn msize wire res =>
       match recv msize (tb_dec T) wire, res with
       | RConnErr, RRConn => true
       | RUnknown tag _, RRUnknown tag' => tag =? tag'
@@ -84,6 +85,22 @@ Definition check_raw_prop (T : tables) (reg_unperm : registry) (c : c01case) : b
   | _ => true
   end.
 
+(** a frame written by a real peer must be exactly the table's encoding of some message of its
+    type byte (nothing left over, no non-canonical field), and recv must deliver that message *)
+Definition check_conn_prop (T : tables) (reg_unperm : registry) (c : c01case) : bool :=
+  match c with
+  | CConn msize wire res =>
+      match recv msize reg_unperm wire with
+      | ROk tag typ mvraw rest =>
+          match lookup typ (tb_enc T), rest with
+          | Some el, [] => bytes_eqb (send tag typ (unperm el) mvraw) wire && got_is T tag typ (mnorm el mvraw) res
+          | _, _ => false
+          end
+      | _ => false
+      end
+  | _ => true
+  end.
+
 (** ---- the protocol tables, field names replaced by the Go paths of the binding ---- *)
 Definition spec_go_registry : registry :=
   Eval vm_compute in
@@ -96,14 +113,15 @@ Definition spec_tables : tables := {| tb_enc := spec_go_registry; tb_dec := spec
 Definition spec_reg_unperm : registry := Eval vm_compute in map (fun e => (fst e, unperm (snd e))) spec_go_registry.
 
 Definition property_holds (c : c01case) : bool :=
-  check_send spec_tables c && check_raw_prop spec_tables spec_reg_unperm c.
+  check_send spec_tables c && check_raw_prop spec_tables spec_reg_unperm c && check_conn_prop spec_tables spec_reg_unperm c.
 
 Definition property_failures (l : list c01case) : list nat := failing property_holds 0 l.
 
 (** ---- compact cases as written by props/C01.py ---- *)
 Inductive ccase :=
 | KSend (typ : byte) (tag msize : list byte) (sent : list cval) (wire : list cseg) (res : cres)
-| KRaw (msize : list byte) (wire : list cseg) (res : cres).
+| KRaw (msize : list byte) (wire : list cseg) (res : cres)
+| KConn (msize : list byte) (wire : list cseg) (res : cres).
 
 Definition to_case (sc : schema) (c : ccase) : c01case :=
   match c with
@@ -123,6 +141,11 @@ Definition to_case (sc : schema) (c : ccase) : c01case :=
   | KRaw msize wire res =>
       match mk_res sc None res with
       | Some r => CRaw (le_num msize) (expand wire) r
+      | None => CBad
+      end
+  | KConn msize wire res =>
+      match mk_res sc None res with
+      | Some r => CConn (le_num msize) (expand wire) r
       | None => CBad
       end
   end.
